@@ -557,8 +557,17 @@ func (s *SpecValidator) validateRequiredDefinitions() *Result {
 	// Each property listed in the required array must be defined in the properties of the model
 	res := pools.poolOfResults.BorrowResult()
 
+	// visit definitions in a stable order: when stopping at the first error, the error reported must not depend on map iteration
+	definitions := s.spec.Spec().Definitions
+	names := make([]string, 0, len(definitions))
+	for d := range definitions {
+		names = append(names, d)
+	}
+	sort.Strings(names)
+
 DEFINITIONS:
-	for d, schema := range s.spec.Spec().Definitions {
+	for _, d := range names {
+		schema := definitions[d]
 		if schema.Required != nil { // Safeguard
 			for _, pn := range schema.Required {
 				red := s.validateRequiredProperties(pn, d, &schema) //#nosec
